@@ -10,7 +10,7 @@ pub const DEF: PropDef = PropDef {
     rule: "systematic grid: every width 1..=128 x {big,little} x boundary values (0, +-1, +-2^k, 2^k+-1, type extremes) with the field embedded at all 8 bit \
 offsets in junk, signed and unsigned decode, compared with a reference codec on Vec<bool> written from the statement (little = consecutive 8-bit groups from \
 the start of the value, group i weighted 2^(8i)); byte-multiple widths also against to_le_bytes/to_be_bytes; random part: random width/order/value/offset/junk, \
-f32/f64 bit patterns of every class at every offset, and the same through the language words (int! uint! uN! iN! fN! / int uint uN iN fN float with big/little). \
+f32/f64 bit patterns of every class at every offset, and the same through the language words (int! uint! uN! iN! fN! / int uint uN iN fN float with the ambient order selected by big/little, by a store into the `big?` variable after the opposite word, or by the save/restore idiom). \
 Non-trivial = bit offset != 0 or width not a byte multiple; distinct = hash of (kind,width,order,value,offset)",
     assumptions: &[
         "`128 uint` is pinned by the existing suite to report integer overflow and is expected as such",
@@ -107,6 +107,16 @@ fn oname(big: bool) -> &'static str {
         "big"
     } else {
         "little"
+    }
+}
+
+/// source that makes `big` the ambient byte order: the word itself, a store into the `big?` variable after the
+/// opposite word, or the save / restore idiom around the opposite word
+fn set_order(ch: &mut Choices, big: bool) -> String {
+    match ch.weighted(&[5, 2, 2]) {
+        0 => oname(big).to_string(),
+        1 => format!("{} {} ! big?", oname(!big), if big { 1 } else { 0 }),
+        _ => format!("{} big? var sv_order {} sv_order ! big?", oname(big), oname(!big)),
     }
 }
 
@@ -431,7 +441,7 @@ fn lang_int(ch: &mut Choices, ctx: &CaseCtx, out: &mut CaseOut) {
     };
     // when the word carries its own byte order, set the ambient one to the opposite
     let ambient_big = if explicit_order { !big } else { big };
-    let src = format!("{} {} {}", oname(ambient_big), v, packw);
+    let src = format!("{} {} {}", set_order(ch, ambient_big), v, packw);
     let want_bits = ref_encode(v, w, big);
     let desc = format!("lang: `{}` then read back at bit offset {} ({} {} bits)", src, off, if signed { "signed" } else { "unsigned" }, w);
     match eval_top(&mut xs, &src) {
@@ -459,7 +469,7 @@ fn lang_int(ch: &mut Choices, ctx: &CaseCtx, out: &mut CaseOut) {
         } else {
             format!("{} {}", w, if signed { "int" } else { "uint" })
         };
-        let src2 = format!("{} {} bits drop {}", oname(ambient_big), off, readw);
+        let src2 = format!("{} {} bits drop {}", set_order(ch, ambient_big), off, readw);
         let r = eval_top(&mut xs, &src2);
         match r {
             Err(p) => out.fail(format!("panic in read word: {}", p), format!("{} | {}", desc, src2)),
@@ -541,7 +551,8 @@ fn lang_float(ch: &mut Choices, ctx: &CaseCtx, out: &mut CaseOut) {
         if big { b.to_be_bytes().to_vec() } else { b.to_le_bytes().to_vec() }
     };
     let mut field: Vec<bool> = Vec::new();
-    match eval_top(&mut xs, &format!("{} {}", oname(ambient_big), packw)) {
+    let order_src0 = set_order(ch, ambient_big);
+    match eval_top(&mut xs, &format!("{} {}", order_src0, packw)) {
         Err(p) => out.fail(format!("panic in float pack word: {}", p), desc.clone()),
         Ok(Err(e)) => out.fail("float pack word fails on a real", format!("{} -> {:?}", desc, e)),
         Ok(Ok(c)) => match c.value() {
@@ -558,7 +569,8 @@ fn lang_float(ch: &mut Choices, ctx: &CaseCtx, out: &mut CaseOut) {
     if out.fail.is_none() {
         let all = in_junk(&field, off, junk, 4);
         xs.set_binary_input(xs::bitstr_from_bits(&all)).unwrap();
-        match eval_top(&mut xs, &format!("{} {} bits drop {}", oname(ambient_big), off, readw)) {
+        let order_src = set_order(ch, ambient_big);
+        match eval_top(&mut xs, &format!("{} {} bits drop {}", order_src, off, readw)) {
             Err(p) => out.fail(format!("panic in float read word: {}", p), desc.clone()),
             Ok(Err(e)) => out.fail("float read word fails on valid input", format!("{} -> {:?}", desc, e)),
             Ok(Ok(c)) => match c.value() {
